@@ -106,6 +106,10 @@ def run(cmd, cwd=None, timeout=1800, env=None, input=None):
 _build_state = {}
 
 
+TRANSLATOR_OUTPUTS = {"config2coq.py": "ConfigData.v", "cmake2coq.py": "CMinxCMake.v",
+                      "literals2coq.py": "SourceLiterals.v"}
+
+
 def translators():
     """Regenerate coq/theories/Gen/*.v from /repo's working tree. Returns
     {name: error text} for translators that failed (fail-closed)."""
@@ -113,7 +117,7 @@ def translators():
     tdir = VERIF / "translators"
     gen = COQ / "theories" / "Gen"
     gen.mkdir(parents=True, exist_ok=True)
-    outputs = {"config2coq.py": "ConfigData.v", "cmake2coq.py": "CMinxCMake.v"}
+    outputs = TRANSLATOR_OUTPUTS
     for script in sorted(tdir.glob("*2coq.py")):
         rc, out = run([PY, "-B", str(script), str(REPO), str(gen)], timeout=120)
         if rc != 0:
@@ -477,7 +481,9 @@ def proof_stage(rep, pid, build_res, extra_files=()):
         if f in deps or not f.startswith("theories/Proofs/") and not f.startswith("theories/Properties/"):
             broken.append(dict(kind="build", file=f))
     for k, v in build_res["translator_failures"].items():
-        broken.append(dict(kind="translator", file=k, log=v[-800:]))
+        gen = "theories/Gen/" + TRANSLATOR_OUTPUTS.get(k, "?")[:-2]
+        if gen in deps or k not in TRANSLATOR_OUTPUTS:
+            broken.append(dict(kind="translator", file=k, log=v[-800:]))
     rep.coverage["obligations"] = n_obl
     rep.coverage["discharged"] = discharged
     rep.coverage["checker_cmd"] = aud["checker_cmd"]
